@@ -4,7 +4,7 @@
    OpenMEEG/include/commandline.h and the shape of the tools' main functions (coq/Geom/Cli.v).
    A command line is a list of tokens (byte lists), argv[0] included; statements hold for ALL command lines. *)
 From Coq Require Import List Arith ZArith Bool String.
-From OM Require Import Geom.Cli Geom.CliProofs Gen.GenCli Geom.CliTool Geom.CliStrings Geom.GainAssoc.
+From OM Require Import Geom.Cli Geom.CliProofs Gen.GenCli Geom.CliTool Geom.CliStrings Geom.CliConv Geom.GainAssoc.
 Import ListNotations.
 
 (* ---- parameters are read where they were given ---- *)
@@ -216,6 +216,19 @@ Print Assumptions c20_string_option_skips_option.
 Example c20_ex_missing_value_rejected :
   r_final (run_tool tool_om_matrix_convert (cmdline ["om_matrix_convert"; "-i"; "m.bin"; "-o"; "-of"; "ascii"]%string)) = FExit 1%Z.
 Proof. vm_compute. reflexivity. Qed.
+
+(* om_matrix_convert: for every command line, the file names and formats the generated table feeds into the conversion
+   are the documented ones: -i / -o name the files, -if forces the input format (else the reader identifies the content),
+   -of forces the output format (else the suffix of the OUTPUT name selects it; table from the maths IO classes) *)
+Theorem c20_matrix_convert_formats : forall argv,
+  conv_plan_of gen_suffix_formats tool_om_matrix_convert argv = Some (conv_plan_spec argv).
+Proof. exact matrix_convert_plan. Qed.
+Print Assumptions c20_matrix_convert_formats.
+
+Example c20_ex_suffix_table :
+  map (fun s => format_of_suffix gen_suffix_formats (s2t s)) ["a.txt"; "b.bin"; "c.mat"; "d.tex"; "e.x.bin"; "noext"; "f.dat"]%string
+  = map s2t ["ascii"; "binary"; "matlab"; "tex"; "binary"; ""; ""]%string.
+Proof. exact suffix_table. Qed.
 
 Theorem c20_typed_name_last : forall pre name, ~ In name pre -> typed_lookup (pre ++ [name]) name = VAtEnd.
 Proof. exact typed_name_last. Qed.
